@@ -13,6 +13,15 @@ Sched.vos Sched.vok Sched.required_vos: Sched.v Graph.vos
 SchedInv.vo SchedInv.glob SchedInv.v.beautified SchedInv.required_vo: SchedInv.v Graph.vo GraphFacts.vo Sched.vo
 SchedInv.vio: SchedInv.v Graph.vio GraphFacts.vio Sched.vio
 SchedInv.vos SchedInv.vok SchedInv.required_vos: SchedInv.v Graph.vos GraphFacts.vos Sched.vos
+SchedGhost.vo SchedGhost.glob SchedGhost.v.beautified SchedGhost.required_vo: SchedGhost.v Graph.vo GraphFacts.vo Sched.vo SchedInv.vo
+SchedGhost.vio: SchedGhost.v Graph.vio GraphFacts.vio Sched.vio SchedInv.vio
+SchedGhost.vos SchedGhost.vok SchedGhost.required_vos: SchedGhost.v Graph.vos GraphFacts.vos Sched.vos SchedInv.vos
+SchedProgress.vo SchedProgress.glob SchedProgress.v.beautified SchedProgress.required_vo: SchedProgress.v Graph.vo GraphFacts.vo Sched.vo SchedInv.vo
+SchedProgress.vio: SchedProgress.v Graph.vio GraphFacts.vio Sched.vio SchedInv.vio
+SchedProgress.vos SchedProgress.vok SchedProgress.required_vos: SchedProgress.v Graph.vos GraphFacts.vos Sched.vos SchedInv.vos
+SchedPrio.vo SchedPrio.glob SchedPrio.v.beautified SchedPrio.required_vo: SchedPrio.v Graph.vo GraphFacts.vo Sched.vo SchedInv.vo
+SchedPrio.vio: SchedPrio.v Graph.vio GraphFacts.vio Sched.vio SchedInv.vio
+SchedPrio.vos SchedPrio.vok SchedPrio.required_vos: SchedPrio.v Graph.vos GraphFacts.vos Sched.vos SchedInv.vos
 Priority.vo Priority.glob Priority.v.beautified Priority.required_vo: Priority.v Graph.vo
 Priority.vio: Priority.v Graph.vio
 Priority.vos Priority.vok Priority.required_vos: Priority.v Graph.vos
@@ -25,3 +34,27 @@ Select.vos Select.vok Select.required_vos: Select.v Graph.vos
 SelectFacts.vo SelectFacts.glob SelectFacts.v.beautified SelectFacts.required_vo: SelectFacts.v Graph.vo GraphFacts.vo Select.vo
 SelectFacts.vio: SelectFacts.v Graph.vio GraphFacts.vio Select.vio
 SelectFacts.vos SelectFacts.vok SelectFacts.required_vos: SelectFacts.v Graph.vos GraphFacts.vos Select.vos
+Properties/C02.vo Properties/C02.glob Properties/C02.v.beautified Properties/C02.required_vo: Properties/C02.v Graph.vo Sched.vo SchedInv.vo SchedGhost.vo
+Properties/C02.vio: Properties/C02.v Graph.vio Sched.vio SchedInv.vio SchedGhost.vio
+Properties/C02.vos Properties/C02.vok Properties/C02.required_vos: Properties/C02.v Graph.vos Sched.vos SchedInv.vos SchedGhost.vos
+Properties/C03.vo Properties/C03.glob Properties/C03.v.beautified Properties/C03.required_vo: Properties/C03.v Graph.vo Sched.vo SchedInv.vo SchedGhost.vo
+Properties/C03.vio: Properties/C03.v Graph.vio Sched.vio SchedInv.vio SchedGhost.vio
+Properties/C03.vos Properties/C03.vok Properties/C03.required_vos: Properties/C03.v Graph.vos Sched.vos SchedInv.vos SchedGhost.vos
+Properties/C04.vo Properties/C04.glob Properties/C04.v.beautified Properties/C04.required_vo: Properties/C04.v Graph.vo Sched.vo SchedInv.vo
+Properties/C04.vio: Properties/C04.v Graph.vio Sched.vio SchedInv.vio
+Properties/C04.vos Properties/C04.vok Properties/C04.required_vos: Properties/C04.v Graph.vos Sched.vos SchedInv.vos
+Properties/C05.vo Properties/C05.glob Properties/C05.v.beautified Properties/C05.required_vo: Properties/C05.v Graph.vo Sched.vo SchedInv.vo
+Properties/C05.vio: Properties/C05.v Graph.vio Sched.vio SchedInv.vio
+Properties/C05.vos Properties/C05.vok Properties/C05.required_vos: Properties/C05.v Graph.vos Sched.vos SchedInv.vos
+Properties/C06.vo Properties/C06.glob Properties/C06.v.beautified Properties/C06.required_vo: Properties/C06.v Graph.vo Sched.vo SchedInv.vo SchedPrio.vo
+Properties/C06.vio: Properties/C06.v Graph.vio Sched.vio SchedInv.vio SchedPrio.vio
+Properties/C06.vos Properties/C06.vok Properties/C06.required_vos: Properties/C06.v Graph.vos Sched.vos SchedInv.vos SchedPrio.vos
+Properties/C08.vo Properties/C08.glob Properties/C08.v.beautified Properties/C08.required_vo: Properties/C08.v Graph.vo Sched.vo SchedInv.vo SchedPrio.vo
+Properties/C08.vio: Properties/C08.v Graph.vio Sched.vio SchedInv.vio SchedPrio.vio
+Properties/C08.vos Properties/C08.vok Properties/C08.required_vos: Properties/C08.v Graph.vos Sched.vos SchedInv.vos SchedPrio.vos
+Properties/C09.vo Properties/C09.glob Properties/C09.v.beautified Properties/C09.required_vo: Properties/C09.v Graph.vo Sched.vo SchedInv.vo SchedGhost.vo SchedProgress.vo
+Properties/C09.vio: Properties/C09.v Graph.vio Sched.vio SchedInv.vio SchedGhost.vio SchedProgress.vio
+Properties/C09.vos Properties/C09.vok Properties/C09.required_vos: Properties/C09.v Graph.vos Sched.vos SchedInv.vos SchedGhost.vos SchedProgress.vos
+Properties/C14.vo Properties/C14.glob Properties/C14.v.beautified Properties/C14.required_vo: Properties/C14.v Graph.vo Sched.vo SchedInv.vo SchedGhost.vo
+Properties/C14.vio: Properties/C14.v Graph.vio Sched.vio SchedInv.vio SchedGhost.vio
+Properties/C14.vos Properties/C14.vok Properties/C14.required_vos: Properties/C14.v Graph.vos Sched.vos SchedInv.vos SchedGhost.vos
